@@ -296,6 +296,24 @@ pub fn gen_scalar(rng: &mut Rng, kind: K) -> Value {
 
 /// `None` = the key is left out
 pub fn gen_leaf_value(rng: &mut Rng, l: &LeafS, may_omit: bool) -> Option<Value> {
+  gen_leaf_value_with(rng, l, may_omit, false)
+}
+
+/// `mix`: missing / one value / several values about equally often (documents of one commit share
+/// the fast-field column builders: single-valued and multi-valued documents must mix in both orders)
+pub fn gen_leaf_value_with(rng: &mut Rng, l: &LeafS, may_omit: bool, mix: bool) -> Option<Value> {
+  if mix {
+    return match rng.below(10) {
+      0 | 1 if may_omit => None,
+      2 if l.nullable => Some(Value::Null),
+      3 | 4 | 5 => {
+        let n = 2 + rng.below(2);
+        Some(Value::Array((0..n).map(|_| gen_scalar(rng, l.kind)).collect()))
+      }
+      6 => Some(Value::Array(vec![gen_scalar(rng, l.kind)])),
+      _ => Some(gen_scalar(rng, l.kind)),
+    };
+  }
   match rng.below(10) {
     0 if may_omit => None,
     1 if l.nullable => Some(Value::Null),
@@ -308,16 +326,20 @@ pub fn gen_leaf_value(rng: &mut Rng, l: &LeafS, may_omit: bool) -> Option<Value>
 }
 
 pub fn gen_object(rng: &mut Rng, n: &NestedS) -> Value {
+  gen_object_with(rng, n, false)
+}
+
+pub fn gen_object_with(rng: &mut Rng, n: &NestedS, mix: bool) -> Value {
   let mut m = Map::new();
   for p in n.props.iter() {
     match p {
       PropS::Leaf(l) => {
-        if let Some(v) = gen_leaf_value(rng, l, l.nullable) {
+        if let Some(v) = gen_leaf_value_with(rng, l, l.nullable, mix) {
           m.insert(l.name.clone(), v);
         }
       }
       PropS::Obj(c) => {
-        if let Some(v) = gen_nested_value(rng, c, c.nullable) {
+        if let Some(v) = gen_nested_value_with(rng, c, c.nullable, mix) {
           m.insert(c.name.clone(), v);
         }
       }
@@ -327,28 +349,36 @@ pub fn gen_object(rng: &mut Rng, n: &NestedS) -> Value {
 }
 
 pub fn gen_nested_value(rng: &mut Rng, n: &NestedS, may_omit: bool) -> Option<Value> {
+  gen_nested_value_with(rng, n, may_omit, false)
+}
+
+pub fn gen_nested_value_with(rng: &mut Rng, n: &NestedS, may_omit: bool, mix: bool) -> Option<Value> {
   match rng.below(12) {
     0 if may_omit => None,
     1 if n.nullable => Some(Value::Null),
-    2 | 3 => Some(gen_object(rng, n)),
+    2 | 3 => Some(gen_object_with(rng, n, mix)),
     4 => Some(json!([])),
     _ => {
       let k = 1 + rng.below(3);
-      Some(Value::Array((0..k).map(|_| if n.nullable && rng.chance(1, 7) { Value::Null } else { gen_object(rng, n) }).collect()))
+      Some(Value::Array((0..k).map(|_| if n.nullable && rng.chance(1, 7) { Value::Null } else { gen_object_with(rng, n, mix) }).collect()))
     }
   }
 }
 
 pub fn gen_valid_doc(rng: &mut Rng, s: &SchemaS, id: &str) -> Value {
+  gen_valid_doc_with(rng, s, id, false)
+}
+
+pub fn gen_valid_doc_with(rng: &mut Rng, s: &SchemaS, id: &str, mix: bool) -> Value {
   let mut m = Map::new();
   m.insert("_id".into(), json!(id));
   for l in s.flat.iter() {
-    if let Some(v) = gen_leaf_value(rng, l, true) {
+    if let Some(v) = gen_leaf_value_with(rng, l, true, mix) {
       m.insert(l.name.clone(), v);
     }
   }
   for n in s.nested.iter() {
-    if let Some(v) = gen_nested_value(rng, n, true) {
+    if let Some(v) = gen_nested_value_with(rng, n, true, mix) {
       m.insert(n.name.clone(), v);
     }
   }
@@ -764,6 +794,8 @@ fn expand(v: &Value) -> Value {
 }
 
 struct Observed {
+  /// companions (valid documents of the same commit) that `add_document` refused
+  companions_rejected: Vec<String>,
   add: Result<(), String>,
   commit: Option<Result<(), String>>,
   /// after a failed commit: result of (new writer, add `later`, commit)
@@ -772,17 +804,27 @@ struct Observed {
   later_plain: Option<Result<(), String>>,
 }
 
-fn observe(schema: &Value, doc: &Value, later: &Value, mem: bool) -> Result<Observed, String> {
+fn observe(schema: &Value, doc: &Value, companions: &[Value], later: &Value, mem: bool) -> Result<Observed, String> {
   let dir = scratch();
   let index = idx::create(dir.path(), schema, mem)?;
   let mut w = index.writer().map_err(|e| format!("writer: {e}"))?;
+  // the other documents of the same commit (they share the segment's column builders)
+  let mut companions_rejected = Vec::new();
+  let mut queued = 0usize;
+  for c in companions.iter() {
+    match guarded(|| w.add_document(&idx::doc(c))) {
+      Ok(Ok(_)) => queued += 1,
+      Ok(Err(e)) => companions_rejected.push(e.to_string()),
+      Err(p) => companions_rejected.push(format!("panic: {p}")),
+    }
+  }
   let d = idx::doc(doc);
   let add = match guarded(|| w.add_document(&d)) {
     Ok(Ok(_)) => Ok(()),
     Ok(Err(e)) => Err(e.to_string()),
     Err(p) => Err(format!("panic: {p}")),
   };
-  let commit = if add.is_ok() {
+  let commit = if add.is_ok() || queued > 0 {
     Some(match guarded(|| w.commit()) {
       Ok(Ok(())) => Ok(()),
       Ok(Err(e)) => Err(e.to_string()),
@@ -812,7 +854,7 @@ fn observe(schema: &Value, doc: &Value, later: &Value, mem: bool) -> Result<Obse
   };
   let failed = matches!(commit, Some(Err(_)));
   let r = probe();
-  Ok(Observed { add, commit, later_after_failure: if failed { Some(r.clone()) } else { None }, later_plain: if failed { None } else { Some(r) } })
+  Ok(Observed { companions_rejected, add, commit, later_after_failure: if failed { Some(r.clone()) } else { None }, later_plain: if failed { None } else { Some(r) } })
 }
 
 fn res_json(r: &Result<(), String>) -> Value {
@@ -827,7 +869,7 @@ impl Prop for C15 {
     "C15"
   }
   fn rule(&self) -> &'static str {
-    "case = (random schema with flat text/keyword/i64/f64 fields and nested objects up to 3 levels, a valid document with 0-2 random mutations out of 19 kinds, a later valid document, filesystem or in-memory storage); the real add_document/commit are run, then a new writer adds and commits the later document; non-trivial = the document was actually mutated (near-valid) or is valid and contains a nested value; distinct = distinct case JSON"
+    "case = (random schema with flat text/keyword/i64/f64 fields and nested objects up to 3 levels, a valid document with 0-2 random mutations out of 19 kinds, 0 or 2-4 valid companion documents of the same commit whose ids sort before and after it and whose fast fields mix missing / one / several values, a later valid document, filesystem or in-memory storage); the real add_document (all documents) and commit (panics caught) are run, then a new writer adds and commits the later document; non-trivial = the document was actually mutated (near-valid) or is valid and contains a nested value; distinct = distinct case JSON"
   }
   fn count(&self, tier: Tier) -> usize {
     tier.pick(1500, 60000)
@@ -854,7 +896,17 @@ impl Prop for C15 {
         }
       }
     }
-    json!({"schema": s.to_json(), "doc": doc, "later": later, "mem": rng.chance(4, 5), "muts": muts})
+    // other valid documents of the same commit, ids sorting before and after the main one, their
+    // fast fields mixing missing / single / multi values
+    let nc = if rng.chance(1, 4) { 0 } else { 2 + rng.below(3) };
+    let companions: Vec<Value> = (0..nc)
+      .map(|k| {
+        let pre = *rng.pick(&["a", "b", "y", "z"]);
+        gen_valid_doc_with(rng, &s, &format!("{pre}{i}-{k}"), true)
+      })
+      .collect();
+    let mem = rng.chance(4, 5);
+    json!({"schema": s.to_json(), "doc": doc, "companions": companions, "later": later, "mem": mem, "muts": muts})
   }
   fn run_case(&self, drv: &mut Driver, case: &Value, s: &mut Summary) {
     let schema_json = &case["schema"];
@@ -873,7 +925,9 @@ impl Prop for C15 {
     }
     s.count(if mem { "storage:memory" } else { "storage:filesystem" });
 
-    let obs = match observe(schema_json, &doc, later, mem) {
+    let companions: Vec<Value> = case["companions"].as_array().cloned().unwrap_or_default();
+    s.count(&format!("companions:{}", companions.len()));
+    let obs = match observe(schema_json, &doc, &companions, later, mem) {
       Ok(o) => o,
       Err(e) => {
         s.disagree("setup", case, json!({"error": e}), json!("index creation should succeed"));
@@ -916,9 +970,20 @@ impl Prop for C15 {
     if m["add"].as_bool() != Some(obs.add.is_ok()) {
       s.disagree("validateAdd", case, observed.clone(), m.clone());
     }
+    // the commit holds the main document (if accepted) and the companions: the model's verdict
+    // is the conjunction of the per-document verdicts (the column builders never refuse values
+    // of the field's kind: `Props/C15.colset_total`)
+    let mut model_commit = !obs.add.is_ok() || m["commit"].as_bool().unwrap_or(false);
+    for c in companions.iter() {
+      let mc = drv.call("C15", json!({"op": "verdict", "schema": schema_json, "doc": c, "cap": DOCSTORE_CAP}));
+      if mc["add"] != json!(true) || !obs.companions_rejected.is_empty() {
+        s.disagree("companion-accepted", case, json!({"rejected": obs.companions_rejected}), mc.clone());
+      }
+      model_commit = model_commit && mc["commit"].as_bool().unwrap_or(false);
+    }
     if let Some(c) = &obs.commit {
-      if m["commit"].as_bool() != Some(c.is_ok()) {
-        s.disagree("collectOk", case, observed.clone(), m.clone());
+      if model_commit != c.is_ok() {
+        s.disagree("collectOk", case, observed.clone(), json!({"commit_all": model_commit, "main": m}));
       }
     }
     if m["conforms"].as_bool() != Some(viol.is_empty()) {
@@ -949,8 +1014,12 @@ impl Prop for C15 {
     // ---- finder (implementation alone) ---------------------------------------------------
     let mut sigs: BTreeSet<String> = BTreeSet::new();
     // F1: accepted ⇒ commit succeeds
-    if let Some(Err(_)) = &obs.commit {
-      let sig = if viol.contains("unknown-top") {
+    if let Some(Err(msg)) = &obs.commit {
+      let sig = if let Some(p) = msg.strip_prefix("panic: ") {
+        // a panic inside commit is a failure of commit; class = the message up to " for <field>"
+        let class: String = p.split(" for ").next().unwrap_or("").chars().map(|c| if c.is_ascii_alphanumeric() { c.to_ascii_lowercase() } else { '-' }).take(48).collect();
+        format!("commit.panic.{}", class.trim_matches('-'))
+      } else if viol.contains("unknown-top") {
         "accept.unknown-top-level-field".to_string()
       } else if viol.contains("array-in-array") {
         "accept.nested-array-in-array".to_string()
@@ -965,9 +1034,9 @@ impl Prop for C15 {
         s.fail(
           &sig,
           if blocked {
-            "add_document accepted the document, commit fails because of its content, and a later valid document can no longer be committed by a new writer (log replay)"
+            "every document was accepted by add_document, commit fails (or panics) because of their content, and a later valid document can no longer be committed by a new writer (log replay)"
           } else {
-            "add_document accepted the document, commit fails because of its content"
+            "every document was accepted by add_document, commit fails (or panics) because of their content"
           },
           case,
           observed.clone(),
